@@ -902,6 +902,24 @@ def exact_horizon(gs, ms):
         h += 1
     return h
 
+def classify_field(gs, detail):
+    """which part of the shared model does the first differing field belong to?
+    returns dict(frozen=bool, kind in {'position','velocity','integrated','force','pairsum','cache','structure'})"""
+    import re
+    m = re.match(r"particle\(c=(\d+),slot=(\d+),(frozen|free)\) (\S+?)(\[\d\])? ", detail)
+    if not m: return dict(frozen=False, kind='structure')
+    frozen = m.group(3) == 'frozen'
+    f = m.group(4)
+    if f == 'r': return dict(frozen=frozen, kind='position')
+    if f == 'v': return dict(frozen=frozen, kind='velocity')
+    if f in ('f0', 'f1') or f.startswith('force_'): return dict(frozen=frozen, kind='force')
+    for g in gs['modules']:
+        if g[0] == 'psum' and g[3] == f: return dict(frozen=frozen, kind='pairsum')
+        if g[0] == 'cache' and g[2] == f: return dict(frozen=frozen, kind='cache')
+    for ig in gs['integrators']:
+        if ig[0] == 'euler' and ig[2] == f: return dict(frozen=frozen, kind='integrated')
+    return dict(frozen=frozen, kind='structure')
+
 def check_stages(gs, rs):
     """stages computed here (fed to the model) vs stages of the real run"""
     st = stages(gs)
@@ -1001,6 +1019,8 @@ def main(argv):
                 break
         if first:
             first['model_input'] = to_model(gs)
+            first['field'] = classify_field(gs, first['detail'])
+            first['scenario'] = to_symlib(gs)
             summ['disagreements'].append(first)
         # oracles (dump only)
         hh = max(h - 1, 0)
@@ -1014,7 +1034,7 @@ def main(argv):
             elif isinstance(res, str) and res.startswith('n/a'): pass
             else:
                 o['applied'] += 1; o['violated'] += 1
-                summ['violations'].append(dict(case=case, oracle=name, detail=res, dir=d, model_input=to_model(gs)))
+                summ['violations'].append(dict(case=case, oracle=name, detail=res, dir=d, model_input=to_model(gs), scenario=to_symlib(gs)))
         if not keep or (not first and not any(v['case'] == case for v in summ['violations'])):
             shutil.rmtree(d, ignore_errors=True)
     try: os.remove(snap)
